@@ -31,9 +31,10 @@ ASSUMPTIONS = [
     "'HS reset': >= 3 ms of SE0 while in HS operation, then a non-J sample >= 200us after HS operation was left",
     "chirp_length (extra, USB2 7.1.7.5 TUCH >= 1 ms) is only asserted when bus_busy was low since the reset was reported",
 ]
-BOUNDS = "BMC from reset with all inputs free per cycle: constants A K=44 (quick, HS-related assertions) / K=50 (thorough, " \
-         "all assertions), constants B K=30 / 44; thorough adds constants A K=84 with a scripted clean reset+handshake in " \
-         "cycles 0..36 and all inputs free from cycle 37; static audit of the real constants"
+BOUNDS = "quick: constants B K=26 all inputs free (two assertion families), constants A K=43 with the reset and the " \
+         "device chirp scripted in cycles 0..12 and every input free from cycle 13; thorough: constants B K=44 and " \
+         "constants A K=50 all free, A K=56 free from cycle 13, A K=84 free from cycle 37 (after a scripted clean " \
+         "handshake); static audit of the real constants"
 OUTSIDE = "real-time constants in the sequential clauses (scaled only; the real values are audited statically); " \
           "which of FULL/LOW is selected on fallback; device.py wiring of the restriction inputs; " \
           "resume detection polarity (LS/FS K) while suspended"
@@ -289,43 +290,63 @@ def _audit_text():
                      list((NAMES[k], v) for k, v in SPEC_SECONDS.items()) + list(EXTRA_SPEC.items()))
 
 
+def _prefix_layer(P):
+    """constants A: scripted reset (SE0 from cycle 1, bus_reset at 4), device chirp (cycles 8..12) and, if P > 13, clean
+    4-cycle host K/J chirps from cycle 13 (three pairs complete at 36, HS operation at 38); every input is free from cycle P"""
+    def line_prefix(t):
+        if t >= P:
+            return None
+        if t == 0:
+            return J
+        if t < 13:
+            return SE0
+        return K if ((t - 13) // 4) % 2 == 0 else J
+    pin = lambda val: (lambda t: None if t >= P else val)
+    return {"line_state": line_prefix, "disconnect": pin(0), "bus_busy": pin(0), "vbus_connected": pin(1),
+            "low_speed_only": pin(0), "full_speed_only": pin(0)}
+
+
 def queries(tier):
     fa = lambda: ResetHarness(CONST_A)
     fb = lambda: ResetHarness(CONST_B)
     quick = tier == "quick"
-    b_asserts = ["no_chirp_restricted", "fallback_time", "fallback_state", "reset_active", "reset_suspended", "reset_in_hs",
-                 "suspend", "chirp_length"]
+    b_reset = ["reset_active", "reset_suspended", "reset_in_hs", "suspend"]
+    b_chirp = ["no_chirp_restricted", "fallback_time", "fallback_state", "chirp_length"]
     b_covers = ["chirp_start", "restricted_reset", "fallback", "reset_active", "reset_suspended", "reset_novbus",
                 "suspend_fs", "chirp_length"]
-    a_asserts_q = ["hs_entry_chirp", "hs_entry_pairs", "leave_hs", "no_chirp_restricted", "fallback_time", "reset_in_hs"]
-    qs = [
-        Query("audit_constants", ConstAuditHarness, 2, split=False,
-              desc="real _CYCLES_* vs spec time x 60 MHz: " + _audit_text()),
-        Query("bmc_B", fb, 30 if quick else 44, asserts=b_asserts, covers=b_covers, timeout=600,
+    audit = Query("audit_constants", ConstAuditHarness, 2, split=False,
+                  desc="real _CYCLES_* vs spec time x 60 MHz: " + _audit_text())
+    if quick:
+        # light tier: three assertion families, one process each (split=False)
+        return [
+            audit,
+            Query("bmc_B_reset", fb, 26, asserts=b_reset, covers=["reset_active", "reset_suspended", "reset_novbus", "suspend_fs"],
+                  split=False, timeout=600,
+                  desc="constants B, all inputs free: bus_reset thresholds (FS active, suspended, VBUS) and suspend entry"),
+            Query("bmc_B_chirp", fb, 26, asserts=b_chirp, covers=["chirp_start", "restricted_reset", "fallback", "chirp_length"],
+                  split=False, timeout=600,
+                  desc="constants B, all inputs free: handshake start vs restriction, fallback on chirp timeout, chirp length"),
+            Query("bmc_A_hs", fa, 43, asserts=["hs_entry_chirp", "hs_entry_pairs", "leave_hs", "fallback_time"],
+                  covers=["hs_entry", "short_chirp_state"], layer=_prefix_layer(13), split=False, timeout=600,
+                  desc="constants A, layer: scripted reset + device chirp in cycles 0..12, every input free from cycle 13: "
+                       "host chirp counting (glitches, short states), HS entry, timeout, leaving HS on restriction"),
+            Query("cosim_A", fa, 0, kind="cosim", cosim_cycles=150),
+            Query("cosim_B", fb, 0, kind="cosim", cosim_cycles=150),
+        ]
+    return [
+        audit,
+        Query("bmc_B", fb, 44, asserts=b_reset + b_chirp, covers=b_covers, timeout=600,
               desc="constants B (short 2.5ms/3ms): FS reset thresholds, suspend, fallback on chirp timeout; all inputs free"),
-        Query("bmc_A", fa, 44 if quick else 50, asserts=a_asserts_q if quick else None,
-              covers=["hs_entry", "leave_hs"], timeout=900,
+        Query("bmc_A", fa, 50, covers=["hs_entry", "leave_hs"], timeout=900,
               desc="constants A: full HS handshake from reset, entry conditions, restriction handling; all inputs free"),
-        Query("cosim_A", fa, 0, kind="cosim", cosim_cycles=150 if quick else 1500),
-        Query("cosim_B", fb, 0, kind="cosim", cosim_cycles=150 if quick else 1500),
+        Query("bmc_A_hs", fa, 56, asserts=["hs_entry_chirp", "hs_entry_pairs", "leave_hs", "fallback_time", "fallback_state",
+                                            "no_chirp_restricted"],
+              covers=["hs_entry", "short_chirp_state", "fallback"], layer=_prefix_layer(13), timeout=900,
+              desc="constants A, layer: scripted reset + device chirp in cycles 0..12, every input free from cycle 13"),
+        Query("bmc_A_deep", fa, 84, timeout=900, covers=["hs_resume", "reset_hs", "suspend_hs", "leave_hs"],
+              layer=_prefix_layer(37),
+              desc="constants A, layer: scripted clean reset + HS handshake in cycles 0..36, all inputs free from cycle "
+                   "37 to 84: HS reset vs suspend discrimination, resume from HS suspend, restrictions in HS"),
+        Query("cosim_A", fa, 0, kind="cosim", cosim_cycles=1500),
+        Query("cosim_B", fb, 0, kind="cosim", cosim_cycles=1500),
     ]
-    if not quick:
-        # concrete prefix (constants A): reset, device chirp, three clean 4-cycle K/J pairs -> HS operation at cycle 38;
-        # everything is free from cycle 37 on
-        P = 37
-        def line_prefix(t):
-            if t >= P:
-                return None
-            if t == 0:
-                return J
-            if t < 13:
-                return SE0
-            return K if ((t - 13) // 4) % 2 == 0 else J
-        pin = lambda val: (lambda t: None if t >= P else val)
-        qs.append(Query("bmc_A_deep", fa, 84, timeout=900,
-                        covers=["hs_resume", "reset_hs", "suspend_hs", "leave_hs"],
-                        layer={"line_state": line_prefix, "disconnect": pin(0), "bus_busy": pin(0), "vbus_connected": pin(1),
-                               "low_speed_only": pin(0), "full_speed_only": pin(0)},
-                        desc="constants A, layer: scripted clean reset + HS handshake in cycles 0..36, all inputs free from cycle "
-                             "37 to 84: HS reset vs suspend discrimination, resume from HS suspend, restrictions in HS"))
-    return qs
